@@ -1389,7 +1389,10 @@ def multi_specs(handler, names, rng, thorough):
     http = handler.startswith(("airplay", "raop"))
     fails = [{"kind": "refused"}, {"kind": "wrong_pin", "pin": 1112}]
     for i in range(len(names)):
-        fails += [{"index": i, "kind": "drop", "sub": None}, {"index": i, "kind": "disconnect", "sub": "clean"}, {"index": i, "cancel": True}]
+        fails += [{"index": i, "kind": "drop", "sub": None}, {"index": i, "cancel": True}]
+        if not thorough and i != len(names) - 1:
+            continue                      # quick tier: disconnect / error reply only at the last reply
+        fails.append({"index": i, "kind": "disconnect", "sub": "clean"})
         fails.append({"index": i, "kind": "error", "sub": "http470"} if (http and (handler in ("airplay_legacy", "raop") or names[i] == "pin-start")) else {"index": i, "kind": "error", "sub": "2"})
     fails = [f for f in fails if not (f.get("kind") == "error" and f.get("sub") == "2" and names[f["index"]] in ("device-info", "pin-start"))]
     seqs = [[{}, {}], [{}, {}, {}]]
